@@ -212,7 +212,106 @@ Section FailureAudience.
     - apply reset_fquestion_values in Hin. unfold set_from_response, set_entry, f_values in Hin. cbn in Hin. exact Hin.
   Qed.
 
+  (* ---- the failure clock: a failure is consumed only strictly before its retry-after instant *)
+  Lemma set_failure_clock_values now (s : store) fe :
+    In fe (f_values (set_failure_clock K now s)) -> f_active fe = (now <? f_retry fe).
+  Proof.
+    unfold set_failure_clock, f_values. cbn [st_fail]. rewrite map_map. intros Hin.
+    apply in_map_iff in Hin. destruct Hin as [[k fe0] [Hfe _]]. cbn in Hfe. subst fe. reflexivity.
+  Qed.
+
+  Lemma failure_hit_before_retry_msg now (s : store) q cd p fe :
+    failure_lookup K K_eqb H salt_fq salt_fz (set_failure_clock K now s) q cd p = Some fe -> now < f_retry fe.
+  Proof.
+    intros Hl. pose proof (failure_lookup_value _ _ _ _ _ Hl) as Hin. apply set_failure_clock_values in Hin.
+    apply failure_lookup_sound in Hl. destruct Hl as [Ha _]. rewrite Ha in Hin. symmetry in Hin. apply N.ltb_lt in Hin. exact Hin.
+  Qed.
+
+  Lemma failure_hit_before_retry_wire now (s : store) w qt qc cd fe :
+    failure_lookup_wire K K_eqb H salt_fq salt_fz (set_failure_clock K now s) w qt qc cd = Some fe -> now < f_retry fe.
+  Proof.
+    intros Hl. pose proof (failure_lookup_wire_value _ _ _ _ _ _ Hl) as Hin. apply set_failure_clock_values in Hin.
+    apply failure_lookup_wire_sound in Hl. destruct Hl as [Ha _]. rewrite Ha in Hin. symmetry in Hin. apply N.ltb_lt in Hin. exact Hin.
+  Qed.
+
+  (* FailureCache.backoff stays inside [min(initial,max), max] *)
+  Lemma backoff_loop_le n : forall maxttl ttl, ttl <= maxttl -> backoff_loop n maxttl ttl <= maxttl.
+  Proof.
+    induction n as [|n IH]; intros maxttl ttl Hle; cbn [backoff_loop]; [exact Hle|].
+    change failure_backoff_factor with 2. change failure_backoff_half with 2.
+    destruct (ttl <? maxttl) eqn:E1; [|exact Hle].
+    destruct (maxttl / 2 <? ttl) eqn:E2; [lia|].
+    apply IH. apply N.ltb_ge in E2.
+    assert (2 * (maxttl / 2) <= maxttl) by (apply N.mul_div_le; lia). lia.
+  Qed.
+  Lemma backoff_le_max initial maxttl streak : backoff initial maxttl streak <= maxttl.
+  Proof.
+    unfold backoff. destruct (maxttl <? backoff_loop _ maxttl initial) eqn:E; [lia|]. apply N.ltb_ge in E. exact E.
+  Qed.
+  Lemma backoff_loop_ge n : forall maxttl ttl, ttl <= backoff_loop n maxttl ttl \/ maxttl <= backoff_loop n maxttl ttl.
+  Proof.
+    induction n as [|n IH]; intros maxttl ttl; cbn [backoff_loop]; [left; lia|].
+    change failure_backoff_factor with 2. change failure_backoff_half with 2.
+    destruct (ttl <? maxttl) eqn:E1; [|left; lia].
+    destruct (maxttl / 2 <? ttl) eqn:E2; [right; lia|].
+    destruct (IH maxttl (2 * ttl)) as [Hh|Hh]; [left; lia|right; exact Hh].
+  Qed.
+  Lemma backoff_ge_min initial maxttl streak : N.min initial maxttl <= backoff initial maxttl streak.
+  Proof.
+    unfold backoff. destruct (maxttl <? backoff_loop _ maxttl initial) eqn:E; [lia|].
+    destruct (backoff_loop_ge (N.to_nat (streak - 1)) maxttl initial); lia.
+  Qed.
+
 End FailureAudience.
+
+(* ---- subtree cuts: once a cut's lifetime ended no route answers from it *)
+Section CutExpiry.
+  Variable K : Type.
+  Variable K_eqb : K -> K -> bool.
+  Variable H : bytes -> K.
+  Variable salt_cut : K -> K.
+
+  Lemma cut_get_in name qc l c : cut_get name qc l = Some c -> In c l.
+  Proof.
+    induction l as [|c' r IH]; cbn; [discriminate|].
+    destruct (bytes_eqb (c_name c') name && (c_class c' =? qc)).
+    - intros Hc. inversion Hc; subst. left. reflexivity.
+    - intros Hc. right. exact (IH Hc).
+  Qed.
+
+  Lemma expired_off id (c0 c : cut) :
+    c = (if c_id c0 =? id then mk_cut (c_name c0) (c_class c0) (c_wire c0) false (c_id c0) else c0) ->
+    c_active c = true -> c_id c <> id.
+  Proof.
+    destruct (c_id c0 =? id) eqn:E; intros Hc Ha; subst c.
+    - cbn in Ha. discriminate.
+    - apply N.eqb_neq in E. exact E.
+  Qed.
+
+  Lemma expire_cut_lookup id (s : store K) q c :
+    cut_lookup K (expire_cut K id s) q = Some c -> c_id c <> id.
+  Proof.
+    unfold cut_lookup. destruct (q_class q =? 0); [discriminate|].
+    intros Hc. apply first_some_spec in Hc. destruct Hc as [cand [_ Hc]].
+    destruct (cut_get cand (q_class q) _) as [c'|] eqn:Eg; [|discriminate].
+    destruct (c_active c') eqn:Ea; [|discriminate]. inversion Hc; subst c'.
+    apply cut_get_in in Eg. unfold expire_cut in Eg. cbn [st_cuts] in Eg.
+    apply in_map_iff in Eg. destruct Eg as [c0 [Hc0 _]]. eapply expired_off; [symmetry; exact Hc0|exact Ea].
+  Qed.
+
+  Lemma expire_cut_lookup_wire id (s : store K) w qc c :
+    cut_lookup_wire K K_eqb H salt_cut (expire_cut K id s) w qc = Some c -> c_id c <> id.
+  Proof.
+    intros Hl. pose proof (cut_lookup_wire_sound _ _ _ _ _ _ _ _ Hl) as [Ha _].
+    unfold cut_lookup_wire in Hl. destruct (qc =? 0); [discriminate|].
+    apply first_some_spec in Hl. destruct Hl as [cand [_ Hl]].
+    destruct (pre_keywire cand 0 qc false); [|discriminate].
+    destruct (kget K K_eqb _ _) as [c'|] eqn:Eg; [|discriminate].
+    destruct (_ && _ && _ && _); [|discriminate]. inversion Hl; subst c'.
+    apply (kget_value_in K K_eqb) in Eg. unfold expire_cut in Eg. cbn [st_cuthash] in Eg. rewrite map_map in Eg. cbn in Eg.
+    apply in_map_iff in Eg. destruct Eg as [[k c0] [Hc0 _]]. cbn in Hc0. eapply expired_off; [symmetry; exact Hc0|exact Ha].
+  Qed.
+End CutExpiry.
 
 (* non-vacuity: a SERVFAIL written back for the scoped client 10.1.2.0/24 (and one under CD) is consumed
    by that audience and by nobody else — not by the shared audience (decoded or wire route), not by a
